@@ -1,0 +1,7 @@
+//go:build verif
+
+package java
+
+// Verification hooks for property C11 (the compiler is total). Add-only.
+
+func VerifToConstantName(s string) string { return toConstantName(s) }
